@@ -137,6 +137,34 @@ func (g *guardInfo) addCondFacts(m map[fact]bool, cond ssa.Value, pol bool, dept
 	}
 }
 
+// factsWithCreation: the facts on entry to b plus, when b belongs to a closure, the facts that held where
+// the closure was created (they speak about captured variables; callers compare operands with sameVar,
+// which only identifies loads of a never-reassigned cell, so stale facts cannot match).
+func (c *Ctx) factsWithCreation(b *ssa.BasicBlock) map[fact]bool {
+	out := map[fact]bool{}
+	for f := range c.factsAt(b) {
+		out[f] = true
+	}
+	fn := b.Parent()
+	for fn.Parent() != nil {
+		parent := fn.Parent()
+		var site *ssa.MakeClosure
+		eachInstr(parent, func(in ssa.Instruction) {
+			if mc, ok := in.(*ssa.MakeClosure); ok && mc.Fn == fn {
+				site = mc
+			}
+		})
+		if site == nil {
+			break
+		}
+		for f := range c.factsAt(site.Block()) {
+			out[f] = true
+		}
+		fn = parent
+	}
+	return out
+}
+
 // factsAt returns the branch facts that hold on entry to block b.
 func (c *Ctx) factsAt(b *ssa.BasicBlock) map[fact]bool {
 	return c.guardsOf(b.Parent()).in[b]
